@@ -21,6 +21,11 @@ package service
 //@   ensures len(result) >= 1
 //@ fieldfunc InsertServiceV2.insertCancel()
 //@   modifies nothing
+// (cancel ends the service: Run returns and nothing is flushed any more.)
+//@ ghost var serviceStops int
+//@ fieldfunc InsertServiceV2.cancel()
+//@   ghostset serviceStops = serviceStops + 1
+//@   modifies serviceStops
 //@ fieldfunc InsertServiceV2.OnBeforeInsert()
 //@   modifies nothing
 //@ fieldfunc InsertServiceV2.V3Session()
@@ -80,6 +85,7 @@ package service
 //@   ensures fresh(result)
 //@ func (*InsertServiceV2).Request$1 [C01,C02,C05]
 //@   requires p.pending == 1 && size >= 0
+//@   check a-full-batch-is-flushed-not-the-service-stopped: serviceStops == old(serviceStops)
 //@   check queued-or-settled: (p.pending == 0 && p.res == 0 && (err != nil || inserted == 0)) ||
 //@          (p.pending == 1 && err == nil && inserted != 0 && len(svc.results) >= 1 && svc.results[len(svc.results) - 1] == p)
 
